@@ -47,7 +47,12 @@ type Sched struct {
 	wg           sync.WaitGroup
 	Uncontrolled bool
 	MaxSteps     int
-	Switches     int // context switches that happened at a site inside a parse
+	// Activation of the yield sites inserted by cmd/instrument: a site is active in this run iff
+	// hash(site)^AutoSalt, reduced to 16 bits, is below the threshold (65536 = all, 0 = none).
+	AutoSalt       uint32
+	AutoFuncThresh uint32
+	AutoSyncThresh uint32
+	Switches       int // context switches that happened at a site inside a parse
 }
 
 func NewSched(t *T) *Sched {
@@ -68,6 +73,30 @@ func (s *Sched) Yield(site string) {
 	if s.cur.Load() == nil {
 		return // no scheduled phase is running (reference calls)
 	}
+	// is this site active in this run? (cheap checks first: most calls end here)
+	if strings.HasPrefix(site, "auto:") {
+		// sites inserted by cmd/instrument: a per-run pseudo-random subset, denser for synchronisation sites
+		th := s.AutoFuncThresh
+		if strings.HasPrefix(site, "auto:sync:") {
+			th = s.AutoSyncThresh
+		}
+		if th == 0 {
+			return
+		}
+		h := uint32(2166136261)
+		for i := 0; i < len(site); i++ {
+			h = (h ^ uint32(site[i])) * 16777619
+		}
+		h ^= s.AutoSalt
+		h ^= h >> 15
+		h *= 2246822519
+		h ^= h >> 13
+		if h&0xffff >= th {
+			return
+		}
+	} else if !s.allOn && !s.active[site] {
+		return
+	}
 	// Identify the calling task by its goroutine, not by "the task released last": if a task was ever
 	// considered blocked and later runs by itself, two tasks run at once and s.cur names only one.
 	g := curGoid()
@@ -80,9 +109,6 @@ func (s *Sched) Yield(site string) {
 	}
 	if tk == nil {
 		return // not a task goroutine
-	}
-	if !s.allOn && !s.active[site] {
-		return
 	}
 	raceDisable()
 	s.parkCh <- parkMsg{task: tk, site: site}
